@@ -1204,7 +1204,8 @@ static void print_task(struct uftrace_data *handle, struct uftrace_task *t)
 	if (t->tid == t->pid)
 		flags[0] = 'F'; /* FORK */
 	while (sref != NULL) {
-		if (sref->sess->tid == t->tid) {
+		/* a task whose session is not known has an empty reference */
+		if (sref->sess && sref->sess->tid == t->tid) {
 			flags[1] = 'S'; /* SESSION */
 			break;
 		}
